@@ -44,7 +44,7 @@ def tset(xs):
 
 def write_cfg(name, **kw):
     os.makedirs(vlib.BUILD, exist_ok=True)
-    p = os.path.join(vlib.BUILD, name + ".cfg")
+    p = os.path.join(vlib.cfgdir(), name + ".cfg")
     with open(p, "w") as f:
         f.write(CFG_T.format(**kw))
     return p
